@@ -255,7 +255,48 @@ func (r *queryRoot) String() string {
 	return r.Term.String()
 }
 
+// maxNestingDepth bounds brackets and negations nested into each other. The parser and the
+// translation of its result recurse once per level: without a bound a long run of "(" or "-"
+// exhausts the goroutine stack, which ends the whole process.
+const maxNestingDepth = 500
+
+func checkNesting(q string) error {
+	tokens, err := parser.Lex("", strings.NewReader(q))
+	if err != nil {
+		// reported by the parser itself
+		return nil
+	}
+	symbols := parser.Lexer().Symbols()
+	open, close, negation := symbols["BracketOpen"], symbols["BracketClose"], symbols["Negation"]
+	depth, negations := 0, 0
+	for _, t := range tokens {
+		switch t.Type {
+		case open:
+			depth += negations + 1
+			negations = 0
+		case close:
+			// the negations in front of a bracket end with it; an exact count is not needed
+			// for a bound, the depth only has to fall again
+			if depth > 0 {
+				depth--
+			}
+			negations = 0
+		case negation:
+			negations++
+		default:
+			negations = 0
+		}
+		if depth+negations > maxNestingDepth {
+			return fmt.Errorf("query is nested too deeply (more than %d levels)", maxNestingDepth)
+		}
+	}
+	return nil
+}
+
 func Parse(q string) (*Query, error) {
+	if err := checkNesting(q); err != nil {
+		return nil, err
+	}
 	root, err := parser.ParseString("", q)
 	if err != nil {
 		return nil, err
